@@ -69,11 +69,13 @@ BOUNDARY = [b for b in ['1', '1-0', '0:1', '1.0', '1.00', '1.0-0', '1~0', '1~~0'
 
 
 # digit runs beyond CPython's 4300-digit limit on int <-> str conversion: the version grammar has no length limit
+# many components (a comparison that recurses once per component runs out of stack)
+LONG = ['1' + '.0' * 1500, '1' + '.0' * 1500 + '.1', '1' + '.0' * 1499 + '~1', '2:1' + '-a.1' * 1200 + '-1', '1' + '.00' * 1500]
 BIG = ['1.' + '9' * 4301, '1.' + '0' * 4301 + '7', '1.7', '1.8', '2:1-' + '5' * 4400, '2:1-' + '5' * 4399 + '6']
 # equal epochs beyond the interpreter's small-integer cache
 EPOCHS = ['300:1.0-1', '300:1.00-1', '300:1.0-2', '257:1', '257:1-0', '18446744073709551617:1', '18446744073709551617:1-00']
 # the pairs handed to the model as well (each conversion of a 4300-digit run costs the extracted model about a second)
-BIG_PAIRS = [(BIG[0], BIG[1]), (BIG[1], BIG[0]), (BIG[4], BIG[4]), (BIG[1], BIG[2]), (BIG[5], BIG[4])] + [(a, b) for a in EPOCHS for b in EPOCHS]
+BIG_PAIRS = [(a, b) for a in LONG for b in LONG if valid(a) and valid(b)] + [(BIG[0], BIG[1]), (BIG[1], BIG[0]), (BIG[4], BIG[4]), (BIG[1], BIG[2]), (BIG[5], BIG[4])] + [(a, b) for a in EPOCHS for b in EPOCHS]
 
 
 def dpkg_available():
